@@ -15,6 +15,8 @@ BUILT = {
          "trusted: unforgeability of packet protection (ring/rustls or SimCrypto's keyed tag) is assumed; frame accounting needs SimCrypto; timing-level equality is not asserted (extra poll instants legitimately perturb pacing)"),
  "C05": ("simnet", "independent credit ledger kept by the wire observer for the receiver of the credit; every STREAM/RESET_STREAM leaving a sender is checked against stream, connection and stream-count limits that actually reached it; send_window bound via probe",
          "trusted: independent wire decoder (wire.rs); SimCrypto only (frames visible); 0-RTT limits are C17's"),
+ "C07": ("simnet", "link-side anti-amplification ledger on every datagram any server connection emits (sent_before + 1 <= 3 x received_before until a genuine Handshake packet / PATH_RESPONSE / validated token), driven by handshakes with 0..16 kB server flights, lost and duplicated client flights, Retry, delayed accept, crafted Initials of 1..1500 bytes from spoofed addresses and garbage datagrams; stateless resets strictly smaller than their trigger and rate limited; sub-1200 Initials ignored without state",
+         "trusted: ledger credits at least what quinn credits (all datagrams routed to or buffered for the connection); VN/refusal sizes not asserted (not bounded by the statement)"),
  "C08": ("simnet", "connections terminated at a generated instant by close() of either/both applications, a path blackhole, a stateless reset with the exact token, or nothing (idle timeout / keep-alive); exactly-once ConnectionLost with an explained reason, none for a local close, CONNECTION_CLOSE in the first transmit after close(), Drained within 3 PTO exactly once, endpoint forgets the connection and its CIDs, idle-timeout bounds, keep-alive holds",
          "trusted: harness; 3*PTO taken from the probe; pad_to_mtu, forced key updates and zero-length-CID+Retry (known findings) excluded by construction; protocol-error terminations belong to C03/C06"),
  "C12": ("simnet+ctrl", "congestion gate checked around every poll_transmit (bytes in flight vs window read through the probe) with the documented exemptions, cumulative probe budget, in-flight balance at forced quiescence, no loss on clean paths; controller call-history model for window >= 2 datagrams",
